@@ -242,6 +242,8 @@ def check_interval(ctx):
     ev = Evaluator(ctx.prog, opaque_kind=REPO_RESULT_KIND)
     g_pair, _ = ev.run_function(prog_method(ctx, icls, '__getitem__'), pos=[Tup([k, i])], self_val=obj, heap={o: dict(f) for o, f in heap.items()})
     g_int, _ = ev.run_function(prog_method(ctx, icls, '__getitem__'), pos=[k], self_val=obj, heap={o: dict(f) for o, f in heap.items()})
+    if ev.issues:
+        raise AnalysisError(f"C17.4: IntervalArray.__getitem__ not canonicalisable: {ev.issues[:3]}")
     ctx.check(isinstance(g_pair, Num) and g_pair.r == A.at(k.r * n.r + i.r).r, 'C17.4', 'IntervalArray[k, i] reads flat element k*n + i', show(g_pair, 120),
               prog_method(ctx, icls, '__getitem__').loc(), INTERVAL + '.__getitem__', 'get:pair')
     ctx.check(isinstance(g_int, Num) and g_int.r == A.at(k.r).r, 'C17.4', 'IntervalArray[j] reads flat element j', show(g_int, 120),
